@@ -392,6 +392,10 @@ def install(w):
     def _is_empty_marker(ex, args, kw, e, env):
         return Z(ex.to_py(args[0]) == ex.w.opaque("inspect.Parameter.empty"))
 
+    @b("is_module")
+    def _is_module(ex, args, kw, e, env):
+        return Z(ex.w.ufun("is_module", ex.S.Py, z3.BoolSort())(ex.to_py(args[0])))
+
     @b("is_complex")
     def _is_complex(ex, args, kw, e, env):
         return Z(ex.w.ufun("is_complex", ex.S.Py, z3.BoolSort())(ex.to_py(args[0])))
@@ -626,17 +630,62 @@ def quant_builtin(ex, args, e, env, is_any):
                 ex.bind_target(g.target, it, env2)
                 bs.append(ex.to_bool(ex.ev(a.elt, env2)))
             return Z((z3.Or if is_any else z3.And)(bs) if bs else z3.BoolVal(not is_any))
-        # symbolic list: any(isinstance(x, C) for x in l) etc. -> fresh predicate over the list
-        if isinstance(seq, Z) and seq.t.sort() == ex.S.PyList and isinstance(g.target, ast.Name):
-            key = ("any" if is_any else "all") + ":" + ast.dump(a.elt) + ":" + g.target.id
-            f = ex.w.ufun("q!" + str(abs(hash(key)) % 10**8), ex.S.PyList, z3.BoolSort())
-            ex.ctx.notes.append(f"abstracted quantifier {key}")
-            return Z(f(seq.t))
+        # symbolic list: a canonical recursive predicate  all!<hash>(l, captured…)  named by the
+        # element TERM, so code and contract that quantify the same condition share the symbol
+        if isinstance(seq, Z) and seq.t.sort() == ex.S.PyList and isinstance(g.target, ast.Name) \
+                and len(a.generators) == 1:
+            return quant_symbolic(ex, a, g, seq, env, is_any)
         raise Unsupported("any/all over this generator")
     if isinstance(a, (CList, Tup)):
         bs = [ex.to_bool(x) for x in a.items]
         return Z((z3.Or if is_any else z3.And)(bs) if bs else z3.BoolVal(not is_any))
     raise Unsupported("any/all argument")
+
+
+def quant_symbolic(ex, a, g, seq, env, is_any):
+    import hashlib
+    S = ex.S
+    h = z3.Const("h!elt", S.Py)
+    env2 = dict(env)
+    env2[g.target.id] = Z(h, origin=f"element of {seq.origin or 'list'}")
+    saved = len(ex.ctx.pc)
+    saved_known = dict(ex.ctx.known)
+    conds = []
+    for c in g.ifs:
+        cz = ex.to_bool(ex.ev(c, env2))
+        conds.append(cz)
+        ex.ctx.pc.append(cz)
+        ex.learn(cz)
+    bt = ex.to_bool(ex.ev(a.elt, env2))
+    del ex.ctx.pc[saved:]
+    ex.ctx.known = saved_known
+    if conds:
+        bt = z3.And(z3.And(conds), bt) if is_any else z3.Implies(z3.And(conds), bt)
+    caps = []
+    seen = set()
+    stack = [bt]
+    while stack:
+        x = stack.pop()
+        if x.get_id() in seen:
+            continue
+        seen.add(x.get_id())
+        if z3.is_app(x):
+            if x.num_args() == 0 and x.decl().kind() == z3.Z3_OP_UNINTERPRETED and not x.eq(h):
+                caps.append(x)
+            stack.extend(reversed(x.children()))
+    ph = [z3.Const(f"cap!{i}", c.sort()) for i, c in enumerate(caps)]
+    body = z3.substitute(bt, *list(zip(caps, ph))) if caps else bt
+    key = ("any" if is_any else "all") + "|" + body.sexpr() + "|" + ",".join(str(c.sort()) for c in caps)
+    name = ("any!" if is_any else "all!") + hashlib.sha1(key.encode()).hexdigest()[:12]
+    if name not in ex.w.defs:
+        qf = z3.Function(name, S.PyList, *[c.sort() for c in caps], z3.BoolSort())
+        l = z3.Const("l!q", S.PyList)
+        bh = z3.substitute(body, (h, S.head(l)))
+        rec = qf(S.tail(l), *ph)
+        d = z3.If(S.is_nil(l), z3.BoolVal(not is_any), z3.Or(bh, rec) if is_any else z3.And(bh, rec))
+        ex.w.defs[name] = (qf, [l] + ph, d, True)
+    qf = ex.w.defs[name][0]
+    return Z(qf(seq.t, *caps))
 
 
 def comprehension_hook(ex, e, g, seq, env):
